@@ -116,6 +116,7 @@ func (f *FnVC) run() {
 	for i := 0; i < 3; i++ {
 		f.finishLoops()
 	}
+	f.resolvePendingAlloc()
 	for _, li := range f.sortedLoops() {
 		if li.spec.Split == nil {
 			continue
@@ -165,10 +166,17 @@ func (f *FnVC) nextrefOfLoc(l Loc) string {
 	if l.multi {
 		return cur
 	}
-	if nr, ok := f.heapNextref[f.st.get(l.heap)]; ok {
+	return f.nextrefOfHeapTerm(f.st.get(l.heap), cur)
+}
+
+func (f *FnVC) nextrefOfHeapTerm(ht, cur string) string {
+	if nr, ok := f.heapNextref[ht]; ok {
 		return nr
 	}
-	return cur
+	// possibly a loop-havocked version that turns out to be unmodified: decided when the loops are finished
+	c := f.declConst("nrb_"+sanitize(ht), "Int")
+	f.pendingAlloc = append(f.pendingAlloc, [2]string{ht, cur})
+	return c
 }
 
 func (f *FnVC) edgeTo(p, b *ssa.BasicBlock) string {
@@ -360,10 +368,12 @@ func (f *FnVC) finishLoops() {
 				continue
 			}
 			if !all && !writes[h.heap] {
-				f.fact(sEq(h.term, h.entry.get(h.heap)))
+				et := h.entry.get(h.heap)
+				f.fact(sEq(h.term, et))
+				f.heapAlias[h.term] = et
 				continue
 			}
-			if all || wholeOK[h.heap] || f.c == nil || f.c.AssignsAll {
+			if all || wholeOK[h.heap] || f.c == nil || f.c.AssignsAll || strings.HasPrefix(h.heap, "Gh_$") {
 				continue
 			}
 			// objects allocated by this function before the loop and not written (nor leaked) inside it keep their contents
@@ -473,6 +483,10 @@ func (f *FnVC) instr(ins ssa.Instruction) {
 		f.mapUpdate(x)
 	case *ssa.Range:
 		f.val(x)
+		if mt, ok := x.X.Type().Underlying().(*types.Map); ok {
+			h := f.visitedHeap(x, mt)
+			f.setHeap(h, "((as const (Array "+f.sorts.sortOf(mt.Key())+" Bool)) false)")
+		}
 	case *ssa.Next:
 		f.next(x)
 	case *ssa.Select:
@@ -1189,6 +1203,15 @@ func (f *FnVC) next(x *ssa.Next) {
 				mv, md := f.mapHeaps(mt)
 				m := f.val(r.X).T
 				f.fact(sImp(okc, sAnd("(not (= "+m+" 0))", sSel(sSel(f.st.get(md), m), out[1].T))))
+				// each key is visited exactly once; when the iteration ends every key has been visited
+				vh := f.visitedHeap(r, mt)
+				vis := f.st.get(vh)
+				f.fact(sImp(okc, sNot(sSel(vis, out[1].T))))
+				ks := f.sorts.sortOf(mt.Key())
+				f.fact(sImp(sNot(okc), "(forall ((k "+ks+")) (! (=> "+sAnd("(not (= "+m+" 0))", sSel(sSel(f.st.get(md), m), "k"))+" (select "+vis+" k)) :pattern ((select "+vis+" k))))"))
+				nv := f.freshConst("visited", "(Array "+ks+" Bool)")
+				f.fact(sEq(nv, sIte(okc, sStore(vis, out[1].T, "true"), vis)))
+				f.setHeap(vh, nv)
 				if len(out) > 2 && tt.At(2).Type() != nil {
 					if _, inv := tt.At(2).Type().(*types.Basic); !(inv && tt.At(2).Type().(*types.Basic).Kind() == types.Invalid) {
 						f.fact(sImp(okc, sEq(out[2].T, sSel(sSel(f.st.get(mv), m), out[1].T))))
@@ -1466,4 +1489,42 @@ func (f *FnVC) pointEnv(at ssa.Instruction) *Env {
 		return fvl(name, s)
 	}
 	return env
+}
+
+// visitedHeap: ghost set of the keys a map iteration has produced so far.
+func (f *FnVC) visitedHeap(r *ssa.Range, mt *types.Map) string {
+	return f.regHeap("Gh_$visited_"+r.Name(), "(Array "+f.sorts.sortOf(mt.Key())+" Bool)")
+}
+
+// resolvePendingAlloc defines, for every heap version a pointer was loaded from, the bound below which that
+// pointer lies: the allocation counter when the version was created; for versions created by a loop havoc that
+// are in fact unmodified, the bound of the version they are equal to.
+func (f *FnVC) resolvePendingAlloc() {
+	seen := map[string]bool{}
+	for _, rec := range f.pendingAlloc {
+		ht, cur := rec[0], rec[1]
+		if seen[ht] {
+			continue
+		}
+		seen[ht] = true
+		c := f.declConst("nrb_"+sanitize(ht), "Int")
+		t := ht
+		resolved := false
+		for i := 0; i < 10 && !resolved; i++ {
+			if nr, ok := f.heapNextref[t]; ok {
+				f.fact("(= " + c + " " + nr + ")")
+				resolved = true
+				break
+			}
+			a, ok := f.heapAlias[t]
+			if !ok {
+				break
+			}
+			t = a
+		}
+		if !resolved {
+			// a version that really was modified in a loop: everything stored in it was allocated by then
+			f.fact("(= " + c + " " + cur + ")")
+		}
+	}
 }
